@@ -455,6 +455,17 @@ def stripTwo : Nat → Int → Nat → Int × Nat
   | 0, b, t => (b, t)
   | fuel + 1, b, t => if b % 2 = 0 ∧ b ≠ 0 then stripTwo fuel (b / 2) (t + 1) else (b, t)
 
+/-- the part of the `k ≥ 29` branch of `sqrootmodpoweroftwo` after the recursive call returned `x`
+    (`x0^2 = a mod 2^(k/2+1)`): quadratic lift, and for odd `k` the final correction by `2^(k-2)` -/
+def twoBigFinish (x tmpa : Int) (k : Nat) (pk spk : Int) : Int :=
+  if x = -1 then x else
+  let x := sqrootmodtwolift x tmpa spk
+  if k % 2 = 0 then x
+  else
+    if x = -1 then x else
+    let u := Int.tmod (tmpa - x * x) pk
+    if u = 0 then x else x + pk / 4
+
 /-- `sqrootmodpoweroftwo(x, a, k, pk)` (deterministic) -/
 def sqrootmodpoweroftwo : Nat → Int → Nat → Int → Option Int
   | 0, _, _, _ => none
@@ -480,14 +491,7 @@ def sqrootmodpoweroftwo : Nat → Int → Nat → Int → Option Int
       let spk : Int := 2 * 2 ^ (k / 2)
       match sqrootmodpoweroftwo fuel tmpa k' spk with
       | none => none
-      | some x =>
-        if x = -1 then some x else
-        let x := sqrootmodtwolift x tmpa spk
-        if k % 2 = 0 then some x
-        else
-          if x = -1 then some x else
-          let u := Int.tmod (tmpa - x * x) pk
-          if u = 0 then some x else some (x + pk / 4)
+      | some x => some (twoBigFinish x tmpa k pk spk)
 
 /-- `ComputeCk` + `RnsToMixedRadix` + `MixedRadixToRing` of `IntRNSsystem` (property C14), as used here:
     value `r_0 + p_0 (m_1 + p_1 (m_2 + …))` with `m_i = ((r_i - V_i) · ck_i) mod p_i` -/
